@@ -33,7 +33,7 @@ def includes_in_place(ctx, recs, failures):
     from . import pipeline as PL
     rnd = random.Random(ctx.seed + 61)
     n = 500 if ctx.tier == "quick" else 8000
-    cases = [c18.gen_case(rnd, 200000 + i) for i in range(n)]
+    cases = [c18.clean_case(rnd, 200000 + i) if i % 2 else c18.gen_case(rnd, 200000 + i) for i in range(n)]
     out = C.run_impl(ctx, "include", [json.dumps({k: v for k, v in c.items() if k != "root"}) for c in cases], tag="c06inc")
     spl, idx = [], []
     for i, c in enumerate(cases):
